@@ -95,6 +95,8 @@ def worker(args):
                 out["covers"] += 1
                 if s.check() == z3.sat:
                     out["covers_sat"] += 1
+                    if oc == "return":
+                        out["return_sat"] = out.get("return_sat", 0) + 1
             for ob in p.obligations:
                 sample = (not want_smt2) and not out.get("_sampled") and not ob.info.get("trivial")
                 discharge(ob, timeout_ms, want_smt2 or sample)
@@ -132,6 +134,13 @@ def worker(args):
         out["assumed_callees"] = {n: cs.contracts[n].assumed for n in cs.used if n in cs.contracts and cs.contracts[n].assumed}
         out["callees"] = sorted(set(out["callees"]) | {v for n in out["assumed_callees"] for v in cs.contracts[n].verified_by})
         out["stats"] = dict(ex.stats)
+        if c.kind != "lemma" and not c.noreturn and not out.get("return_sat") and not out["undecided"] and not ex.unsupported:
+            out["error"] = (f"no satisfiable normal-return path in {target}: every clause about the normal result is vacuous "
+                            "(contradictory pre-condition or callee contract?); a contract for inputs that never return is marked noreturn=True")
+        dead = sorted(k for k, (n, ok) in ex.stats.get("callret", {}).items() if n > 0 and ok == 0)
+        if dead and not out["undecided"]:
+            out["error"] = ("vacuous call sites: the normal return of " + ", ".join(dead) + f" is infeasible at every call site in {target} "
+                            "(the callee's contract contradicts the caller's state; every path through the call was cut)")
     except Exception as e:      # noqa
         out["error"] = f"{type(e).__name__}: {e}\n{traceback.format_exc()[-1500:]}"
     out["secs"] = round(time.time() - t0, 3)
